@@ -187,7 +187,7 @@ class ProcTable:
         if self.reparent:
             for q in list(self.procs.values()):
                 if q.ppid == pid and q.pid != pid:
-                    q.ppid = 1
+                    q.ppid = 1 if q.pid != 1 else 0       # (init itself has no parent to be handed to)
 
     def reap(self, pid):
         return self.procs.pop(pid)
@@ -398,7 +398,8 @@ class ProcTable:
         p, tid = self.owner_of(pid)
         if p is None or getattr(p, "half_gone", False):
             raise ProcessLookupError(errno.ESRCH, os.strerror(errno.ESRCH))
-        if pid in self.deny_kill:
+        if pid in self.deny_kill or p.pid in self.deny_kill:
+            # another user's process: kill(2) refuses the pid and every thread id of it alike
             raise PermissionError(errno.EPERM, os.strerror(errno.EPERM))
         vk.events.append(("kill", pid, int(sig), p.inc))
         # job control is visible in /proc: a stopped process says "T" until it is continued
